@@ -1,0 +1,5 @@
+//go:build !verif
+
+package floodsub
+
+func verifGate(m *FloodSub, name string) {}
